@@ -1,6 +1,9 @@
 package main
 
 import (
+	"fmt"
+	"go/token"
+	"os"
 	"go/types"
 	"sort"
 	"strings"
@@ -104,6 +107,37 @@ func classifyRoot(v ssa.Value, fn *ssa.Function, visiting map[ssa.Value]bool) ro
 			}
 		}
 		return res
+	case *ssa.UnOp:
+		// a load from a local variable cell that only this function writes (its address is at most returned): the
+		// value is whatever was stored
+		a, ok := x.X.(*ssa.Alloc)
+		if !ok || x.Op != token.MUL || a.Referrers() == nil {
+			return rootInfo{kind: rootOther}
+		}
+		visiting[v] = true
+		defer delete(visiting, v)
+		res := rootInfo{kind: rootFresh}
+		for _, r := range *a.Referrers() {
+			switch u := r.(type) {
+			case *ssa.DebugRef, *ssa.Return:
+			case *ssa.UnOp:
+				if u.Op != token.MUL {
+					return rootInfo{kind: rootOther}
+				}
+			case *ssa.Store:
+				if u.Addr != ssa.Value(a) {
+					return rootInfo{kind: rootOther}
+				}
+				sr := classifyRoot(u.Val, fn, visiting)
+				if sr.kind != rootFresh {
+					return rootInfo{kind: rootOther}
+				}
+				res.sites = append(res.sites, sr.sites...)
+			default:
+				return rootInfo{kind: rootOther}
+			}
+		}
+		return res
 	case *ssa.Call:
 		if c := x.Call.StaticCallee(); c != nil && strings.HasPrefix(c.String(), "(*math/big.Int).") && len(x.Call.Args) > 0 {
 			// math/big methods that return *big.Int return their receiver
@@ -161,6 +195,25 @@ func (w *World) instrWrites(ins ssa.Instruction, fn *ssa.Function) []writeEvent 
 	case ssa.CallInstruction:
 		c := x.Common()
 		if c.IsInvoke() {
+			if impls, ok := w.ifaceImpls(c); ok {
+				// closed-world interface: receiver is argument 0 of each implementation, then the call's arguments
+				for _, cv := range impls {
+					for k, wc := range w.WE[cv] {
+						if wc.other {
+							out = append(out, writeEvent{key: k, root: rootInfo{kind: rootOther}, at: ins})
+						}
+						for i := range wc.params {
+							if i == 0 {
+								// written through the receiver object: the interface value's payload is unknown
+								out = append(out, writeEvent{key: k, root: rootInfo{kind: rootOther}, at: ins})
+							} else if i-1 < len(c.Args) {
+								add([]string{k}, c.Args[i-1])
+							}
+						}
+					}
+				}
+				return out
+			}
 			other(w.invokeWrites(c))
 			return out
 		}
@@ -216,6 +269,21 @@ func (w *World) instrWrites(ins ssa.Instruction, fn *ssa.Function) []writeEvent 
 				}
 			}
 		default:
+			if ts, ok := w.sigTargetsOf(c); ok {
+				for _, cv := range ts {
+					for k, wc := range w.WE[cv] {
+						if wc.other {
+							out = append(out, writeEvent{key: k, root: rootInfo{kind: rootOther}, at: ins})
+						}
+						for i := range wc.params {
+							if i < len(c.Args) {
+								add([]string{k}, c.Args[i])
+							}
+						}
+					}
+				}
+				return out
+			}
 			other(w.funcValueWrites(c))
 		}
 	}
@@ -241,6 +309,9 @@ func (w *World) computeWritesExisting() {
 					for _, ev := range w.instrWrites(ins, f) {
 						if ev.root.kind == rootFresh {
 							continue
+						}
+						if os.Getenv("GOBTVC_DEBUG_WE") != "" && strings.Contains(funcName(f), os.Getenv("GOBTVC_DEBUG_WE")) && w.WE[f][ev.key] == nil {
+							fmt.Fprintf(os.Stderr, "WE %s key=%s kind=%d param=%d at %s: %s\n", funcName(f), ev.key, ev.root.kind, ev.root.param, w.Fset.Position(ev.at.Pos()), ev.at)
 						}
 						wc := w.WE[f][ev.key]
 						if wc == nil {
